@@ -234,6 +234,9 @@ def run(ctx, params):
             ctx.case(judge_general, ctx, root)
         if any(v and any(ch in v for ch in "<>&\"") for n in snapshot.walk(root) for v in [n.content, n.tail] + list(n.attributes.values()) + list(n.extras.values())):
             ctx.distinct(snapshot.value(root))
+        if i % 13 == 0:
+            plain = snapshot.to_plain(root)
+            ctx.later(lambda c, p=plain, e=for_eml: (judge_eml if e else judge_general)(c, snapshot.from_plain(Node, p)))
         if i % 301 == 0:
             ctx.sample({"tree": snapshot.to_plain(root) if len(snapshot.walk(root)) <= 2 else {"nodes": len(snapshot.walk(root))},
                         "xml": metapype_io.to_xml(root)[:400]})
